@@ -333,8 +333,8 @@ def main_check(check, argv=None):
     seed = int(os.environ.get("VERIF_SEED", "0") or 0)
     nruns = args.runs or (check.quick_runs if tier == "quick" else check.thorough_runs)
     t0 = time.time()
-    print("property=%s tier=%s VERIF_SEED=%d runs=%d workers=%d repo=%s fingerprint=%s" % (
-        prop, tier, seed, nruns, workers, os.environ.get("VERIF_REPO", "/repo"), fingerprint_repo()))
+    print("property=%s tier=%s VERIF_SEED=%d hashseed=%s runs=%d workers=%d repo=%s fingerprint=%s" % (
+        prop, tier, seed, os.environ.get("PYTHONHASHSEED", "-"), nruns, workers, os.environ.get("VERIF_REPO", "/repo"), fingerprint_repo()))
 
     scns = []
     for i in range(nruns):
@@ -481,6 +481,7 @@ def write_replay(check, scn, tape, sig, v, orig_scn, orig_tape):
            "detail": v.get("detail"), "scenario": scn, "tape": Tape.rle(tape),
            "tape_len": len(tape), "tape_nonzero": sum(1 for x in tape if x),
            "original_seed": orig_scn.get("seed"), "fingerprint": fingerprint_repo(),
+           "pythonhashseed": int(os.environ.get("PYTHONHASHSEED", "0") or 0),
            "original_tape_len": len(orig_tape) if orig_tape is not None else None}
     with open(path, "w") as f:
         json.dump(doc, f, indent=1, default=_json_default)
